@@ -110,6 +110,9 @@ def matches(entry, f):
         base = f.get("input", "").split("#")[0]
         if not any(base.startswith(x) for x in (pre if isinstance(pre, list) else [pre])):
             return False
+    ic = entry.get("input_contains")
+    if ic is not None and ic not in f.get("input", ""):
+        return False
     cc = entry.get("config_contains")
     if cc is not None:
         if not any(x in f.get("config", "") for x in (cc if isinstance(cc, list) else [cc])):
@@ -119,7 +122,7 @@ def matches(entry, f):
         if v is None or v == "*":
             continue
         have = f.get(k, "")
-        if k == "input":
+        if k == "input" and "#damaged:" not in have:
             have = have.split("#")[0]  # a re-layout variant of a listed input is the same finding
         if isinstance(v, list):
             if have not in v:
